@@ -67,16 +67,16 @@ func (s *zzCosiStore) CacheQueueTransaction(tx *common.VersionedTransaction) err
 func ZZ_C24() {
 	st := &zzCosiStore{}
 	node := &Node{persistStore: st}
-	chain := &Chain{node: node, ChainId: zzH(), CosiAggregators: map[crypto.Hash]*CosiAggregator{}, CosiVerifiers: map[crypto.Hash]*CosiVerifier{}}
-	zzBase = 5 + vr.Choose(0, 1)
+	// hashes only serve as identities here: distinct constants (collisions are outside every claim)
+	chain := &Chain{node: node, ChainId: zzId(0x01), CosiAggregators: map[crypto.Hash]*CosiAggregator{}, CosiVerifiers: map[crypto.Hash]*CosiVerifier{}}
+	zzBase = 5
 	// a pool of 3 transactions with arbitrary ledger status
 	pool := make([]crypto.Hash, 3)
 	for i := range pool {
-		pool[i] = zzH()
-		for j := 0; j < i; j++ {
-			vr.Assume(pool[i] != pool[j])
-		}
-		st.txs = append(st.txs, &zzTxStatus{hash: pool[i], status: vr.Choose(0, 3)})
+		pool[i] = zzId(0x10 + byte(i))
+		status := vr.Int() // forked lazily, where the code under test reads the transaction
+		vr.Assume(status >= 0 && status <= 3)
+		st.txs = append(st.txs, &zzTxStatus{hash: pool[i], status: status})
 	}
 	type prop struct {
 		snap     *common.Snapshot
@@ -87,14 +87,8 @@ func ZZ_C24() {
 	}
 	var props []*prop
 	for k := 0; k < 2; k++ {
-		p := &prop{snap: &common.Snapshot{Version: common.SnapshotVersionCommonEncoding, Hash: zzH(), Timestamp: vr.U64()}}
+		p := &prop{snap: &common.Snapshot{Version: common.SnapshotVersionCommonEncoding, Hash: zzId(0x20 + byte(k)), Timestamp: vr.U64()}}
 		vr.Assume(p.snap.Timestamp < 1<<62)
-		if k == 1 {
-			vr.Assume(p.snap.Hash != props[0].snap.Hash)
-		}
-		for _, o := range pool {
-			vr.Assume(p.snap.Hash != o)
-		}
 		// members: one of {0},{1},{0,1},{1,2} so the two proposals can overlap
 		switch vr.Choose(0, 3) {
 		case 0:
@@ -109,7 +103,7 @@ func ZZ_C24() {
 		for _, m := range p.members {
 			p.snap.Transactions = append(p.snap.Transactions, pool[m])
 		}
-		nc := 4 + vr.Choose(0, 2)
+		nc := 4 + vr.Choose(0, 1)
 		nr := nc - vr.Choose(0, 1)
 		p.agg = &CosiAggregator{Snapshot: p.snap, Commitments: map[int]*crypto.Key{}, Responses: map[int]*[32]byte{}}
 		for i := 0; i < nc; i++ {
@@ -128,12 +122,8 @@ func ZZ_C24() {
 		props = append(props, p)
 	}
 	// a verifier of an unrelated (remote) proposal
-	foreign := &CosiVerifier{Snapshot: &common.Snapshot{Hash: zzH()}}
-	fkey := zzH()
-	for _, o := range pool {
-		vr.Assume(fkey != o)
-	}
-	vr.Assume(fkey != props[0].snap.Hash && fkey != props[1].snap.Hash)
+	foreign := &CosiVerifier{Snapshot: &common.Snapshot{Hash: zzId(0x31)}}
+	fkey := zzId(0x30)
 	chain.CosiVerifiers[fkey] = foreign
 
 	op := vr.Choose(0, 2)
